@@ -50,6 +50,11 @@ claimed = {
    technique='explicit-state breadth-first search to the fixpoint of the reachable state space against an insertion-ordered reference model; stateless model checking (all interleavings with state cache, preemption-bounded DFS) of concurrent callers',
    text='H: over universe {1,2,3} the complete reachable state spaces of OrderedMap (Set/Delete/Clear, iteration whose consumer deletes the visited key), ds.Set (Add/Delete/AddAll/DeleteAll/Replace/Apply/Compute/Clear/Encode-Decode with all 8 subsets, all disjoint mutation pairs and the set itself as arguments) and SetArithmetic (Add/Subtract, thresholds 1 and 2) are explored; after every step every probe (order forwards/backwards, Has/HasAll/Equals/Intersect/Filter/Clone/Is/Any/Iterator/Size, Head/Tail) and every returned diff is compared with the model (diff == exactly the elements whose membership changed). S: 7 scenarios (DeleteAll||Apply, AddAll||DeleteAll||Replace, Compute||Compute, Compute||Apply||Replace, Apply||Apply, Add/Delete/Has with porcupine, OrderedMap Set/Delete||ForEach): every interleaving; no deadlock, results explainable by a serial order.',
    note='Trusted: reference model; Apply exercised with disjoint added/deleted sets. Two genuine defects repaired (fix: commits).', ref='2 C11'),
+
+ 'C20': dict(cat='model_checking', engine='S',
+   technique='stateless model checking of the real daemon under a controlled scheduler with virtual contexts: delay-bounded DFS with a happens-before state cache; map iteration order of the worker map is an explorer-owned choice',
+   text='14 scenarios (3 workers with orders incl. ties/negatives/gaps registered before Start, workers added while running, BackgroundWorker racing ShutdownAndWait, early-exiting worker and re-registration of its name, duplicate running name, two ShutdownAndWait callers, Shutdown()+ShutdownAndWait, Run+shutdown, equal-order workers that only return after each other saw the cancellation, a lower-order worker that exits by itself on ContextStopped) are explored with at most 3 (quick) / 4 (thorough) deviations. Oracle on the recorded log: a still-running worker is cancelled only after every started worker of higher order has returned; ShutdownAndWait/Run return only after all started workers returned; nothing starts afterwards; error identities; no deadlock, no panic.',
+   note='Trusted: vcontext fidelity; cancelling an already returned worker is not judged. One genuine defect repaired (fix: commit).', ref='2 C20'),
 }
 na_reason = 'check not built yet in this round (engine exists; see DESIGN.md section 9 for the order of work)'
 checks = []
